@@ -28,7 +28,7 @@ const (
 )
 
 func exportRefresherGraph(c *vk.Ctx) (*graph.Graph, []string, tlcrun.Result) {
-	cfg := fmt.Sprintf("SPECIFICATION Spec\nCONSTANTS\n V = {\"v1\", \"v2\"}\n I = %d\n B = %d\n Global = FALSE\n Export = TRUE\nINVARIANTS TypeOK BoundedRefresh\nPROPERTIES Live\nCHECK_DEADLOCK FALSE\n", refI, refB)
+	cfg := fmt.Sprintf("SPECIFICATION Spec\nCONSTANTS\n V = {\"v1\", \"v2\"}\n I = %d\n B = %d\n Global = FALSE\n D = 1\n DropWhenBusy = FALSE\n Export = TRUE\nINVARIANTS TypeOK BoundedRefresh\nPROPERTIES Live\nCHECK_DEADLOCK FALSE\n", refI, refB)
 	g := graph.New()
 	var perr error
 	res := tlcrun.Run(tlcrun.Options{SpecDir: vk.SpecDir(), Module: "Refresher", Config: cfg, Workers: 2,
@@ -53,14 +53,15 @@ func exportRefresherGraph(c *vk.Ctx) (*graph.Graph, []string, tlcrun.Result) {
 	var inits []string
 	for s, raw := range g.State {
 		var st struct {
-			Age   map[string]int `json:"age"`
-			Since map[string]int `json:"since"`
-			Fails map[string]int `json:"fails"`
-			Clk   map[string]int `json:"clk"`
-			Due   []string       `json:"due"`
+			Age    map[string]int `json:"age"`
+			Since  map[string]int `json:"since"`
+			Fails  map[string]int `json:"fails"`
+			Clk    map[string]int `json:"clk"`
+			Due    []string       `json:"due"`
+			Holder string         `json:"holder"`
 		}
 		json.Unmarshal(raw, &st)
-		ok := true
+		ok := st.Holder == "none"
 		for _, v := range []string{"v1", "v2"} {
 			if st.Age[v] != refI+1 || st.Since[v] != 0 || st.Fails[v] != 0 {
 				ok = false
@@ -96,11 +97,18 @@ type refInstance struct {
 }
 
 type refWorld struct {
-	org   *origin.Server
-	ca    *pki.CA
-	inst  map[string]*refInstance
-	mu    sync.Mutex
-	decis map[*crl.CRLRevocationChecker]string
+	org     *origin.Server
+	ca      *pki.CA
+	inst    map[string]*refInstance
+	mu      sync.Mutex
+	decis   map[*crl.CRLRevocationChecker]string
+	gate    map[*crl.CRLRevocationChecker]chan struct{} // a pass that runs parks here (inside the refresh mutex) until released
+	parking bool
+}
+
+// tickRun is one in-flight updateCRLs(false) call of an instance.
+type tickRun struct {
+	done chan struct{}
 }
 
 func (rw *refWorld) publish(in *refInstance, ok bool, listLeaf bool) {
@@ -121,12 +129,21 @@ func (rw *refWorld) publish(in *refInstance, ok bool, listLeaf bool) {
 func newRefWorld(seed int64) (*refWorld, error) {
 	rw := &refWorld{org: origin.New(), inst: map[string]*refInstance{}, decis: map[*crl.CRLRevocationChecker]string{}}
 	rw.ca = pki.NewCA(pki.CAOpts{Name: "Refresher CA", Serial: 90})
+	rw.gate = map[*crl.CRLRevocationChecker]chan struct{}{}
 	verifhook.Set(func(site string, kv ...any) {
 		if (site == "crl.update.skip" || site == "crl.update.run") && len(kv) > 0 {
 			if ch, ok := kv[0].(*crl.CRLRevocationChecker); ok {
 				rw.mu.Lock()
 				rw.decis[ch] = site[len("crl.update."):]
+				var g chan struct{}
+				if site == "crl.update.run" && rw.parking {
+					g = make(chan struct{})
+					rw.gate[ch] = g
+				}
 				rw.mu.Unlock()
+				if g != nil {
+					<-g // the pass is in progress: it holds the process-wide refresh mutex
+				}
 			}
 		}
 	})
@@ -174,14 +191,78 @@ type refStep struct {
 }
 
 // runRefresherWalk replays one walk of the Refresher graph on two real validators in this process.
+// A tick is one updateCRLs(false) call in its own goroutine, started as soon as the instance is due (like the ticker loop
+// does); a pass that runs is parked inside the refresh mutex until the specification's TickEnd, so that ticks of the other
+// instance really meet a taken mutex.
 func runRefresherWalk(c *vk.Ctx, walk []*graph.Edge, seed int64) {
 	rw, err := newRefWorld(seed)
 	if err != nil {
 		c.Infra("refresher world: %v", err)
 	}
 	defer rw.close()
+	rw.mu.Lock()
+	rw.parking = true
+	rw.mu.Unlock()
 	unit := time.Hour / refI
 	var hist []refStep
+	inflight := map[string]*tickRun{}
+	start := func(v string) {
+		in := rw.inst[v]
+		rw.mu.Lock()
+		delete(rw.decis, in.checker)
+		rw.mu.Unlock()
+		tr := &tickRun{done: make(chan struct{})}
+		inflight[v] = tr
+		go func() {
+			defer close(tr.done)
+			in.checker.VerifUpdateCRLs(false)
+		}()
+	}
+	// decision waits until the in-flight tick of v reached its decision: "skip" / "dropped" (call returned) or "run" (parked)
+	decision := func(v string) string {
+		in := rw.inst[v]
+		deadline := time.Now().Add(10 * time.Second)
+		for time.Now().Before(deadline) {
+			rw.mu.Lock()
+			d := rw.decis[in.checker]
+			_, parked := rw.gate[in.checker]
+			rw.mu.Unlock()
+			if d == "run" && parked {
+				return "run"
+			}
+			select {
+			case <-inflight[v].done:
+				rw.mu.Lock()
+				d = rw.decis[in.checker]
+				rw.mu.Unlock()
+				if d == "" {
+					return "dropped"
+				}
+				return d
+			case <-time.After(2 * time.Millisecond):
+			}
+		}
+		return "timeout"
+	}
+	defer func() {
+		// let everything that is parked finish before the worlds are destroyed
+		rw.mu.Lock()
+		rw.parking = false
+		for ch, g := range rw.gate {
+			close(g)
+			delete(rw.gate, ch)
+		}
+		rw.mu.Unlock()
+		for _, tr := range inflight {
+			if tr == nil {
+				continue
+			}
+			select {
+			case <-tr.done:
+			case <-time.After(20 * time.Second):
+			}
+		}
+	}()
 	for _, e := range walk {
 		var op []any
 		json.Unmarshal(e.Op, &op)
@@ -189,59 +270,105 @@ func runRefresherWalk(c *vk.Ctx, walk []*graph.Edge, seed int64) {
 			Decision string `json:"decision"`
 		}
 		json.Unmarshal(e.Expect, &exp)
+		var to struct {
+			Due    []string `json:"due"`
+			Holder string   `json:"holder"`
+		}
+		json.Unmarshal([]byte(e.To), &to)
 		step := refStep{Op: e.Op, Expect: exp.Decision}
+		rep := func() map[string]any {
+			return map[string]any{"steps": hist, "interval_units": refI, "bound": refB * refI}
+		}
 		switch op[0].(string) {
 		case "advance":
-			crl.VerifShiftLastUpdateFinish(unit, rw.inst["v1"].checker, rw.inst["v2"].checker)
+			if to.Holder == "none" {
+				crl.VerifShiftLastUpdateFinish(unit, rw.inst["v1"].checker, rw.inst["v2"].checker)
+			} else {
+				crl.VerifShiftLastUpdateFinishUnlocked(unit, rw.inst["v1"].checker, rw.inst["v2"].checker)
+			}
 			for _, in := range rw.inst {
 				in.since++
 			}
-		case "tick":
-			v, ok := op[1].(string), op[2].(bool)
-			in := rw.inst[v]
-			rw.publish(in, ok, ok)
-			bu, bd := rw.org.Hits(in.pathU), rw.org.Hits(in.pathD)
-			rw.mu.Lock()
-			delete(rw.decis, in.checker)
-			rw.mu.Unlock()
-			in.checker.VerifUpdateCRLs(false)
-			rw.mu.Lock()
-			step.Real = rw.decis[in.checker]
-			rw.mu.Unlock()
-			step.FetchedU, step.FetchedD = rw.org.Hits(in.pathU)-bu, rw.org.Hits(in.pathD)-bd
-			if step.Real == "run" {
-				in.since = 0
+		case "tickbegin":
+			v := op[1].(string)
+			if inflight[v] == nil {
+				start(v)
 			}
+			step.Real = decision(v)
 			c.Eval(e.From + "|" + string(e.Op))
-			step.SinceV1, step.SinceV2 = rw.inst["v1"].since, rw.inst["v2"].since
-			hist = append(hist, step)
-			rep := map[string]any{"steps": hist, "interval_units": refI, "bound": refB * refI}
-			if step.Real == "run" {
-				if step.FetchedU == 0 {
-					c.Violation("known-location-not-refetched:configured-url", fmt.Sprintf("a refresh pass of %s ran but did not fetch its configured CRL again", v), rep)
-				}
-				if step.FetchedD == 0 {
-					c.Violation("known-location-not-refetched:cdp", fmt.Sprintf("a refresh pass of %s ran but did not fetch the CDP CRL it knows again", v), rep)
-				}
-				if ok {
-					// the newly published acceptable CRL lists the leaf: it must be rejected now
-					if r := in.w.Handshake(in.chain); r.Verdict != "revoked" {
-						c.Violation("new-crl-not-in-force-after-refresh", fmt.Sprintf("after a successful refresh pass of %s the certificate revoked in the newly published CRL is still %s", v, r.Verdict), rep)
-					}
-				}
+			if step.Real == "skip" || step.Real == "dropped" {
+				inflight[v] = nil
+			}
+			if step.Real == "dropped" {
+				hist = append(hist, step)
+				c.Violation("tick-dropped-while-another-instance-refreshes", fmt.Sprintf("the tick of %s found the refresh mutex taken by the other instance and was dropped instead of waiting: its CRLs are not re-fetched in this interval", v), rep())
+				return
 			}
 			if step.Real != exp.Decision {
 				c.Drift("refresher-decision:" + exp.Decision + "->" + step.Real)
+				if step.Real == "timeout" {
+					if os.Getenv("VERIF_DEBUG") != "" {
+						b, _ := json.Marshal(hist)
+						fmt.Fprintf(os.Stderr, "C15TIMEOUT v=%s from=%s hist=%s\n", v, e.From, b)
+					}
+					return
+				}
 			}
-			continue
+		case "tickend":
+			v, ok := op[1].(string), op[2].(bool)
+			in := rw.inst[v]
+			tr := inflight[v]
+			if tr == nil {
+				c.Drift("refresher-tickend-without-pass")
+				return
+			}
+			rw.publish(in, ok, ok)
+			bu, bd := rw.org.Hits(in.pathU), rw.org.Hits(in.pathD)
+			rw.mu.Lock()
+			if g, okg := rw.gate[in.checker]; okg {
+				close(g)
+				delete(rw.gate, in.checker)
+			}
+			rw.mu.Unlock()
+			select {
+			case <-tr.done:
+			case <-time.After(30 * time.Second):
+				c.Violation("refresh-pass-never-returns", "a refresh pass did not return within 30 s", rep())
+				return
+			}
+			inflight[v] = nil
+			in.since = 0
+			step.Real = "done"
+			step.FetchedU, step.FetchedD = rw.org.Hits(in.pathU)-bu, rw.org.Hits(in.pathD)-bd
+			c.Eval(e.From + "|" + string(e.Op))
+			if step.FetchedU == 0 {
+				c.Violation("known-location-not-refetched:configured-url", fmt.Sprintf("a refresh pass of %s ran but did not fetch its configured CRL again", v), rep())
+			}
+			if step.FetchedD == 0 {
+				c.Violation("known-location-not-refetched:cdp", fmt.Sprintf("a refresh pass of %s ran but did not fetch the CDP CRL it knows again", v), rep())
+			}
+			if ok {
+				if r := in.w.Handshake(in.chain); r.Verdict != "revoked" {
+					c.Violation("new-crl-not-in-force-after-refresh", fmt.Sprintf("after a successful refresh pass of %s the certificate revoked in the newly published CRL is still %s", v, r.Verdict), rep())
+				}
+			}
+		}
+		// the ticker loop starts a goroutine for every tick at once: ticks that are due but not yet processed by the
+		// specification are already waiting for the refresh mutex in the real system
+		// (only while a pass is in progress: with a free mutex the order in which due ticks get it is the specification's choice)
+		if to.Holder != "none" {
+			for _, v := range to.Due {
+				if inflight[v] == nil && v != to.Holder {
+					start(v)
+				}
+			}
 		}
 		step.SinceV1, step.SinceV2 = rw.inst["v1"].since, rw.inst["v2"].since
 		hist = append(hist, step)
 		for _, in := range rw.inst {
 			if in.since > refB*refI {
 				c.Violation("refresh-starved:"+map[bool]string{true: "with-other-instance-active", false: "alone"}[rw.inst["v1"].since <= refB*refI || rw.inst["v2"].since <= refB*refI],
-					fmt.Sprintf("instance %s has not re-fetched its CRLs for %d time units (update_interval = %d units, bound %d) although its ticker ticked every interval", in.name, in.since, refI, refB*refI),
-					map[string]any{"steps": hist, "interval_units": refI, "bound": refB * refI})
+					fmt.Sprintf("instance %s has not re-fetched its CRLs for %d time units (update_interval = %d units, bound %d) although its ticker ticked every interval", in.name, in.since, refI, refB*refI), rep())
 				return
 			}
 		}
@@ -288,8 +415,8 @@ func C15(c *vk.Ctx) {
 	}
 	walks += c15ProvisionIntake(c)
 	c.Set("traces_validated_against_impl", int64(walks))
-	c.Set("spec", fmt.Sprintf("Refresher.tla: V = {v1, v2}, I = %d, B = %d, per-instance finish timestamp; invariant BoundedRefresh, liveness Live ([]<> refreshed) under weak fairness on the complete graph (no state constraint); all 16 phase pairs", refI, refB))
-	c.Set("rule", "a case is one edge (advance one time unit / tick of an instance with outcome ok or fail) executed on two real validators in one process: time passes by shifting the refresh-finish timestamp(s) back through a verif accessor, a tick is one updateCRLs(false) call; the skip/run decision comes from the hook; predicates: time since an instance last re-fetched > B*I; a pass that ran did not fetch a known location (configured url, CDP); after a successful pass the newly published CRL is not in force; configured CRLs not in force when Provision returns")
+	c.Set("spec", fmt.Sprintf("Refresher.tla: V = {v1, v2}, I = %d, B = %d, per-instance finish timestamp, passes that last up to one time unit while holding the refresh mutex; invariant BoundedRefresh, liveness Live ([]<> refreshed) under weak fairness on the complete graph (no state constraint); all 16 phase pairs", refI, refB))
+	c.Set("rule", "a case is one edge (advance one time unit / tick of an instance with outcome ok or fail) executed on two real validators in one process: time passes by shifting the refresh-finish timestamp(s) back through a verif accessor, a tick is one updateCRLs(false) call in its own goroutine started as soon as the instance is due; a pass that runs is parked at the crl.update.run hook inside the refresh mutex until the specification's TickEnd; the skip/run decision comes from the hook; predicates: time since an instance last re-fetched > B*I; a pass that ran did not fetch a known location (configured url, CDP); after a successful pass the newly published CRL is not in force; configured CRLs not in force when Provision returns")
 	c.Assume("the real time.Ticker is not exercised in the quick tier: ticks are injected at the model's instants; one time unit = update_interval / 4")
 }
 
